@@ -99,10 +99,10 @@ DRV_CMD(bmp_read, "bmp.read") {
   BitmapFile f = readBmp(hexDecode(need(a, 0)));
   return dump(f) + " v=" + attempt([&] { f.Validate(); return std::string("ok"); });
 }
-// bmp.rt <hex> : read, write, read again
+// bmp.rt <hex> : read (+ the library's own Validate), write, read again
 DRV_CMD(bmp_rt, "bmp.rt") {
   BitmapFile f = readBmp(hexDecode(need(a, 0)));
-  std::string s = dump(f), w;
+  std::string s = dump(f) + " v=" + attempt([&] { f.Validate(); return std::string("ok"); }), w;
   try { w = writeIndexedRaw(f); } catch (const std::exception&) { return s + " W=err"; }
   s += " W=" + B(w);
   s += " R=" + attempt([&] { return dump(readBmp(w)); });
